@@ -203,6 +203,36 @@ def read_attrs(mod, cls, meth, depth=0, seen=None):
     return out
 
 
+def _prefix_scan(term: P, memos):
+    """delattr(self, name) for name in [k for k in vars(self) if k.startswith(PREFIXES)]: every attribute the instance has whose name
+    starts with one of the literal prefixes -> the memos among them (no other condition, no negation)."""
+    a = term.as_atom()
+    if not (a and a[0] == "sub" and len(a[2]) == 1 and a[2][0].as_atom() and a[2][0].as_atom()[0] == "lv"):
+        return set()
+    c = a[1].as_atom()
+    while c and c[0] == "call" and call_name(c) in ("list", "tuple", "sorted") and c[2]:
+        c = c[2][0].as_atom()
+    if not (c and c[0] == "comp" and c[1] in ("ListComp", "GeneratorExp") and len(c) == 4 and len(c[3]) == 1):
+        return set()
+    kind, it, conds = c[3][0]
+    src = it.key()
+    for w in ("list(", "tuple("):
+        if src.startswith(w) and src.endswith(")"):
+            src = src[len(w):-1]
+    if src not in ("vars(self)", "self.__dict__", "vars(self).keys()", "self.__dict__.keys()", "dir(self)") or len(conds) != 1:
+        return set()
+    if c[2].key() != P.atom(("sub", it, (c[2].as_atom()[2][0],))).key() if c[2].as_atom() and c[2].as_atom()[0] == "sub" else True:
+        return set()
+    ca = conds[0].as_atom()
+    if not (ca and ca[0] == "call" and call_name(ca) == ".startswith" and len(ca[2]) == 1 and ca[1].as_atom()[1].key() == c[2].key()):
+        return set()
+    from .symex import seq_items as _si
+    pre = [_str(x) for x in (_si(ca[2][0]) or [ca[2][0]])]
+    if not pre or any(p is None for p in pre):
+        return set()
+    return {m for m in memos if m.startswith(tuple(pre))}
+
+
 def removals(mod, cls, ev, memos, depth=0):
     """[(event index, {memo names removed}, guards)] in an evaluated method (direct or through a self-call helper)."""
     out = []
@@ -214,6 +244,10 @@ def removals(mod, cls, ev, memos, depth=0):
                 s = _str(args[1])
                 if s in memos:
                     out.append((idx, {s}, e.guards))
+                else:
+                    names = _prefix_scan(args[1], memos)
+                    if names:
+                        out.append((idx, names, e.guards))
             elif cn == ".pop" and e.target.key() in ("self.__dict__.pop", "vars(self).pop") and args:
                 s = _str(args[0])
                 if s in memos:
@@ -268,10 +302,18 @@ def check_mutators_invalidate(chk, rule, rel, cls, memos, mutators, fx=None):
         inv = removals(mod, cls, ev, memos)
         covered = set()
         lg = {(c.key(), p) for c, p in last_guards}
+        getters = {info[0] for info in memos.values() if info and isinstance(info[0], str)}
         for idx, names, g in inv:
             extra = [(c, p) for c, p in g if (c.key(), p) not in lg and not benign_guard(c)]
             if idx > last and not extra:
                 covered |= names
+            elif idx <= last and not extra:
+                # dropped first, state changed afterwards: as good, provided nothing in between can fill the memo again from the old state
+                # (no call of a memoising getter between the removal and the last state store)
+                refill = [e for e in ev.events[idx:last + 1] if e.kind == "call" and e.target is not None and e.target.as_atom()
+                          and e.target.as_atom()[0] == "attr" and e.target.as_atom()[1].key() == "self" and e.target.as_atom()[2] in getters]
+                if not refill:
+                    covered |= names
         early = [e for e in ev.events[last + 1:] if e.kind == "return" and (not inv or ev.events.index(e) < max(i for i, _, _ in inv))]
         missing = sorted(set(memos) - covered)
         chk.ob(rule, rel, f"{cls}.{m}", f"after changing {sorted({w.attr for w in ws})} every memo is dropped on the way to every normal exit",
